@@ -168,6 +168,7 @@ def main():
                 if len(pick) >= args.max_per_fn:
                     break
             jobs.extend(pick)
+    rnd.shuffle(jobs)
     print("jobs:", len(jobs), file=sys.stderr)
     with mp.Pool(args.j, initializer=init_worker) as pool, open(args.out, "w") as out:
         for k, r in enumerate(pool.imap_unordered(run_mut, jobs)):
